@@ -264,4 +264,112 @@ Section Locks.
     - rewrite Ho, Ho'. reflexivity.
     - intros l Hl. rewrite (Hag l (or_introl Hl)), (Hag' l (or_introl Hl)). reflexivity.
   Qed.
+
+  (** * No deadlock: critical sections that are not nested always run to completion
+
+      [bracketed L t]: starting with lockset [L] (empty or one mutex), the thread acquires a mutex
+      only when it holds none, releases exactly the one it holds, and ends holding none: the shape
+      `Lock(); ...; Unlock()` of the library.  Every execution prefix of such a program extends to
+      a complete interleaving, so the statements about "every interleaving" are not vacuous. *)
+  Fixpoint bracketed (L : list nat) (t : thread) : Prop :=
+    match t with
+    | [] => L = []
+    | Act _ :: t' => bracketed L t'
+    | Acq m :: t' => L = [] /\ bracketed [m] t'
+    | Rel m :: t' => L = [m] /\ bracketed [] t'
+    end.
+
+  Definition invb (c : cfg) : Prop := forall i t L, nth_error c i = Some (t, L) -> bracketed L t.
+
+  Lemma remove_single : forall m, remove Nat.eq_dec m [m] = [].
+  Proof. intros m. simpl. destruct (Nat.eq_dec m m); congruence. Qed.
+
+  Lemma invb_step : forall (c c' : cfg) l, invb c -> step c l c' -> invb c'.
+  Proof.
+    intros c c' l Hb Hs.
+    inversion Hs as [c0 i a t L Hn | c0 i m t L Hn Hfree | c0 i m t L Hn Hheld]; subst;
+      intros k t' L' Hk; destruct (nth_upd_inv _ _ _ _ _ _ Hn Hk) as [[-> E] | [Hne Hk']];
+      try (eapply Hb; eauto; fail); inversion E; subst; pose proof (Hb _ _ _ Hn) as B; simpl in B.
+    - exact B.
+    - destruct B as [-> B]. exact B.
+    - destruct B as [-> B]. rewrite remove_single. exact B.
+  Qed.
+
+  Lemma invb_steps : forall (c c' : cfg) tr, steps c tr c' -> invb c -> invb c'.
+  Proof.
+    intros c c' tr H. induction H; intros Hi; auto. apply IHsteps. eapply invb_step; eauto.
+  Qed.
+
+  Lemma free_dec : forall (c : cfg) m,
+      free c m \/ exists j t L, nth_error c j = Some (t, L) /\ In m L.
+  Proof.
+    induction c as [|[t L] c IH]; intros m.
+    - left. intros [|j] t L H; discriminate.
+    - destruct (in_dec Nat.eq_dec m L) as [Hin | Hnin].
+      + right. exists 0, t, L. auto.
+      + destruct (IH m) as [Hf | (j & t' & L' & Hj & Hin)].
+        * left. intros [|j] t' L' H; simpl in H.
+          -- inversion H; subst. auto.
+          -- eapply Hf; eauto.
+        * right. exists (S j), t', L'. auto.
+  Qed.
+
+  Lemma progress : forall c : cfg,
+      invb c -> ~ finished c -> exists l c', step c l c'.
+  Proof.
+    intros c Hb Hnf.
+    destruct (finished_or_head Loc Val Out c) as [Hf | (i & e & t & L & Hn)]; [contradiction|].
+    pose proof (Hb _ _ _ Hn) as B. destruct e as [a | m | m]; simpl in B.
+    - eexists. eexists. apply st_act. eauto.
+    - destruct (free_dec c m) as [Hfree | (j & tj & Lj & Hj & Hin)].
+      + eexists. eexists. eapply st_acq; eauto.
+      + pose proof (Hb _ _ _ Hj) as Bj.
+        destruct tj as [|[b | m' | m'] tj]; simpl in Bj.
+        * subst Lj. inversion Hin.
+        * eexists. eexists. apply st_act. eauto.
+        * destruct Bj as [-> _]. inversion Hin.
+        * destruct Bj as [-> _]. eexists. eexists. eapply st_rel; eauto. left; auto.
+    - destruct B as [-> _]. eexists. eexists. eapply st_rel; eauto. left; auto.
+  Qed.
+
+  Lemma step_size : forall (c c' : cfg) l, step c l c' -> S (size Loc Val Out c') = size Loc Val Out c.
+  Proof.
+    intros c c' [k e] Hs. destruct (step_inv _ _ _ _ _ _ _ Hs) as (t & L & L' & Hn & ->).
+    eapply size_upd; eauto.
+  Qed.
+
+  Lemma finished_dec : forall c : cfg, finished c \/ ~ finished c.
+  Proof.
+    intros c. destruct (finished_or_head Loc Val Out c) as [Hf | (i & e & t & L & Hn)]; auto.
+    right. intros Hf. specialize (Hf _ _ _ Hn). discriminate.
+  Qed.
+
+  Lemma bracketed_runs_to_completion : forall n (c : cfg),
+      size Loc Val Out c = n -> invb c -> exists tr c', steps c tr c' /\ finished c'.
+  Proof.
+    induction n as [|n IH]; intros c Hsz Hb.
+    - destruct (finished_dec c) as [Hf | Hnf].
+      + exists [], c. split; [constructor | auto].
+      + destruct (progress c Hb Hnf) as (l & c' & Hs). pose proof (step_size _ _ _ Hs). lia.
+    - destruct (finished_dec c) as [Hf | Hnf].
+      + exists [], c. split; [constructor | auto].
+      + destruct (progress c Hb Hnf) as (l & c' & Hs).
+        destruct (IH c') as (tr & c'' & Hss & Hf).
+        * pose proof (step_size _ _ _ Hs). lia.
+        * eapply invb_step; eauto.
+        * exists (l :: tr), c''. split; auto. econstructor; eauto.
+  Qed.
+
+  Theorem bracketed_no_deadlock : forall ts,
+      (forall t, In t ts -> bracketed [] t) ->
+      forall pre (c : cfg), steps (init ts) pre c ->
+      exists post, interleaving ts (pre ++ post).
+  Proof.
+    intros ts Hb pre c Hs.
+    assert (Hi : invb (init ts)).
+    { intros i t L Hn. apply nth_init in Hn. destruct Hn as [Hn ->].
+      apply Hb. eapply nth_error_In; eauto. }
+    destruct (bracketed_runs_to_completion _ c eq_refl (invb_steps _ _ _ Hs Hi)) as (post & c' & Hs' & Hf).
+    exists post, c'. split; auto. eapply steps_app; eauto.
+  Qed.
 End Locks.
